@@ -15,7 +15,9 @@
    ADD_PROVIDER send). *)
 From Coq Require Import List NArith Bool.
 From V.gen Require Consts.
-From V.C16 Require Import Model Proofs.
+From V.C14 Require Model Proofs.
+From V.C17 Require Model.
+From V.C16 Require Import Model Proofs Obl Bound Chan Compose Comp.
 Import ListNotations.
 Open Scope N_scope.
 
@@ -85,21 +87,250 @@ Theorem C16_drain_progress :
 Proof. exact serve_progress. Qed.
 Print Assumptions C16_drain_progress.
 
+(* at most one obligation per (kind, query, peer): over pending_dials, pending_actions and the executor
+   together, after every history with fresh query ids and well-formed commands (`cmd_ok`: the routing
+   table never hands out the local peer as a seed; put_record_to_peers is not given a peer twice) *)
+Theorem C16_at_most_one :
+  forall g m es k q p,
+  fresh_ids [] es -> cmds_ok g es -> (cnt (fst (run g (st0 m) es)) k q p <= 1)%nat.
+Proof. exact at_most_one. Qed.
+Print Assumptions C16_at_most_one.
+
+(* hence exactly one: a peer a live query waits for has one outstanding obligation of that query *)
+Theorem C16_exactly_one :
+  forall g m es q x p,
+  1 <= g_alpha g -> fresh_ids [] es -> cmds_ok g es ->
+  let s := fst (run g (st0 m) es) in
+  aget q (eng s) = Some x -> In p (waiting x) -> cnt s (negb (is_track x)) q p = 1%nat.
+Proof. exact exactly_one. Qed.
+Print Assumptions C16_exactly_one.
+
 (* quorum honesty: a PutRecordSuccess / AddProviderSuccess for q is only emitted when, for at least
-   clamp(requested quorum, number of targets) DISTINCT target peers of the send phase, an executor
-   future working for q has reported a completed send (`sends` collects exactly the SendSuccess /
-   AssumeSendSuccess / ReadSuccess completions of futures carrying a query id) *)
+   clamp(requested quorum, number of targets) DISTINCT TARGET peers of the send phase, an executor
+   future created for that peer's SendPutValue / SendAddProvider action has reported a completed send.
+   `put_sends` collects exactly the SendSuccess / AssumeSendSuccess / ReadSuccess completions of
+   send-phase futures (FReqEat / FSend); a late FIND_NODE reply of the lookup phase does not count
+   (it cannot even reach the counter: by C16_at_most_one no request future of the lookup exists for
+   a target once the send phase has started) *)
 Theorem C16_quorum_honest :
   forall g m es q,
-  fresh_ids [] es ->
+  fresh_ids [] es -> cmds_ok g es ->
   let outs := snd (run g (st0 m) es) in
   In (OPutSuccess q) outs \/ In (OProvSuccess q) outs ->
   exists targets qr S,
     find_quorum q es = Some qr /\ In (OTrack q targets) outs /\ NoDup S /\
     clamp qr (N.of_nat (length targets)) <= N.of_nat (length S) /\
-    (forall p, In p S -> In (q, p) (sends g (st0 m) es) /\ In p targets).
-Proof. exact quorum_honest. Qed.
+    (forall p, In p S -> In (q, p) (put_sends g (st0 m) es) /\ In p targets).
+Proof. exact quorum_honest_put. Qed.
 Print Assumptions C16_quorum_honest.
+
+(* the measure: M = sum over live queries of (5 * C15's lookup measure + queued records + 5k + 2 | 5 * targets + 2 |
+   pending + 1) + 4 per queued dial action + 3 per pending substream action + 2 / 1 per executor
+   future.  No event other than new work (command, inbound substream) raises it; every productive event
+   (a served query with an action, the answer to a queued dial / pending substream / future) lowers it *)
+Theorem C16_step_measure :
+  forall U g s e,
+  BE U g s -> ev_in_U U e -> is_input e = false ->
+  BE U g (fst (fst (step g s e))) /\ (M U g (fst (fst (step g s e))) <= M U g s)%nat /\
+  (productive s e -> (M U g (fst (fst (step g s e))) < M U g s)%nat).
+Proof. exact step_M. Qed.
+Print Assumptions C16_step_measure.
+
+(* when nothing productive is enabled, nothing is owed and the engine is drained *)
+Theorem C16_stuck_idle :
+  forall s, NoDup (map fst (eng s)) -> stuck s -> idle s /\ quiescent s = true.
+Proof. exact stuck_idle. Qed.
+Print Assumptions C16_stuck_idle.
+
+(* fair termination with an explicit bound: after ANY history es0 (peers drawn from a universe U of
+   n peers), every schedule es1 without new work in which the drain loop and the environment keep
+   answering what is owed has at most budget(n, k, es0) events — (10 n + 5 k + 2) per command,
+   (5 |peers| + 2) per put_record_to_peers, 2 per inbound substream — and when it ends because
+   nothing productive is enabled, every started operation has exactly one terminal event.  The
+   premises `idle` / `quiescent` of C16_terminates are no longer assumed: they follow. *)
+Theorem C16_fair_terminates :
+  forall U g m es0 es1 q,
+  1 <= g_alpha g -> fresh_ids [] (es0 ++ es1) -> cmds_ok g es0 -> evs_in_U U es0 -> evs_in_U U es1 ->
+  let s0 := fst (run g (st0 m) es0) in
+  fair_run g s0 es1 ->
+  (length (work es1) <= budget (length U) g es0)%nat /\
+  (stuck (fst (run g s0 es1)) ->
+   terminals q (snd (run g (st0 m) (es0 ++ es1))) = started q (es0 ++ es1) /\
+   (started q (es0 ++ es1) <= 1)%nat).
+Proof. exact fair_terminates. Qed.
+Print Assumptions C16_fair_terminates.
+
+(* await points inside the handlers: with an event channel of `cap` slots towards the KademliaHandle
+   (`brun`: the loop takes an event only when it is not parked in a handler; `BRecv` = the user
+   receives one event) nothing is lost, duplicated or reordered — what the user has received, then
+   the channel, then the backlog of the parked handler is exactly the event sequence of the
+   unbounded loop on the events that were really taken — the state is that loop's state, the
+   channel never exceeds its capacity, and the loop is parked only while the channel is full *)
+Theorem C16_bounded_channel :
+  forall g m cap es,
+  let b' := fst (brun g cap (b0 m) es) in
+  let rcv := snd (brun g cap (b0 m) es) in
+  let tk := taken g cap (b0 m) es in
+  b_st b' = fst (run g (st0 m) tk) /\
+  rcv ++ b_chan b' ++ b_back b' = filter is_event (snd (run g (st0 m) tk)) /\
+  (length (b_chan b') <= cap)%nat /\ (b_back b' <> [] -> length (b_chan b') = cap).
+Proof. exact bounded_channel. Qed.
+Print Assumptions C16_bounded_channel.
+
+(* and the user can always drain it: after |channel| + |backlog| receives everything has arrived *)
+Theorem C16_channel_drains :
+  forall g cap n b,
+  (1 <= cap)%nat -> bwf cap b -> (length (flight b) <= n)%nat ->
+  flight (fst (brun g cap b (repeat BRecv n))) = [] /\
+  snd (brun g cap b (repeat BRecv n)) = flight b.
+Proof. exact drain_all. Qed.
+Print Assumptions C16_channel_drains.
+
+(* ---- the composition: glue + routing table (the C14 model) + record store (the C17 model) ----
+   `crun wc (w0 ..) us` (Compose.v) runs user-level events: commands carry only what the user gives
+   (`UCmd q c target`, `UPutToPeers q quorum record given`, `UStoreRecord`, `UAddKnownPeer`), the
+   seeds, the XOR-distance ranks and the local-record flag are computed from the world's table and
+   store, and every place where kademlia/mod.rs touches the table or the store is an operation of
+   the C14 / C17 model.  `keys_ok`: every peer label has one 256-bit key, distinct peers distinct keys. *)
+
+(* the composed run IS a run of the glue model, on the elaborated events: same state, same output *)
+Theorem C16_compose_refines :
+  forall wc us w,
+  w_st (fst (crun wc w us)) = fst (run (wc_g wc) (w_st w) (elabs wc w us)) /\
+  snd (crun wc w us) = snd (run (wc_g wc) (w_st w) (elabs wc w us)).
+Proof. exact compose_refines. Qed.
+Print Assumptions C16_compose_refines.
+
+(* everything the Kademlia event loop does to the routing table (add_known_peer, connection
+   established / closed, dial failure, disconnect_peer, the peers learnt from replies, the entry()
+   calls of put_record_to_peers) preserves C14's table invariant *)
+Theorem C16_table_invariant :
+  forall wc m us, keys_ok wc ->
+  V.C14.Proofs.Inv (lkey wc) (wc_K wc) (w_rt (fst (crun wc (w0 wc m (length (lkey wc))) us))).
+Proof. exact table_inv. Qed.
+Print Assumptions C16_table_invariant.
+
+(* "closest peers seeded from the table": after every composed history a lookup command is started
+   with seeds = RoutingTable::closest(target, k) of the current table; the local peer is never a seed;
+   and (outside the class of finding F-C14a) the seeds are sorted by distance to the target, without
+   duplicates, addressed entries of the table, min(k, #addressed) many, and every addressed entry left
+   out is strictly further than every seed *)
+Theorem C16_seeds_from_table :
+  forall wc m us q c target,
+  keys_ok wc ->
+  let w := fst (crun wc (w0 wc m (length (lkey wc))) us) in
+  let t := w_rt w in
+  let k := N.to_nat (g_k (wc_g wc)) in
+  let nodes := V.C14.Model.closest (lkey wc) t target k in
+  let cands := filter V.C14.Model.n_addr (concat t) in
+  let seeds := map (fun n => peer_of (wc_keys wc) (V.C14.Model.n_key n)) nodes in
+  (exists cmd, fst (fst (elab wc w (UCmd q c target))) = ECmd q cmd (dists_of wc target) seeds) /\
+  ~ In (g_local (wc_g wc)) seeds /\
+  (length target = length (lkey wc) -> V.C14.Proofs.outside_class (lkey wc) t target ->
+   Sorted.StronglySorted (V.C14.Proofs.dlt target) nodes /\ NoDup (map V.C14.Model.n_key nodes) /\
+   (forall n, In n nodes -> In n cands) /\
+   length nodes = Nat.min k (length cands) /\
+   (forall a b, In a nodes -> In b cands -> ~ In b nodes -> V.C14.Proofs.dlt target a b)).
+Proof. exact seeds_from_table. Qed.
+Print Assumptions C16_seeds_from_table.
+
+(* put_record_to_peers (after the repair of F-C16e): the send phase targets only peers the caller
+   named, never the local peer, and no peer twice when the caller named none twice *)
+Theorem C16_put_to_peers_named :
+  forall wc w q qr rk given,
+  keys_ok wc ->
+  exists ps, fst (fst (elab wc w (UPutToPeers q qr rk given))) = EPutToPeers q qr ps /\
+             (forall x, In x ps -> In x given /\ x <> g_local (wc_g wc)) /\
+             (NoDup given -> NoDup ps).
+Proof. exact put_to_peers_named. Qed.
+Print Assumptions C16_put_to_peers_named.
+
+(* hence the side conditions of the theorems above hold for every composed history by construction:
+   query ids fresh at user level are fresh, and the elaborated commands are well formed *)
+Theorem C16_compose_cmds_ok :
+  forall wc m us,
+  keys_ok wc -> ufresh [] us -> Forall (ucmd_ok (wc_g wc)) us ->
+  let es := elabs wc (w0 wc m (length (lkey wc))) us in
+  fresh_ids [] es /\ cmds_ok (wc_g wc) es.
+Proof. exact c_sides. Qed.
+Print Assumptions C16_compose_cmds_ok.
+
+(* GetRecord and the local store: with a live local record and Quorum::One the operation answers at
+   once — FoundRecord(local record) then GetRecordSuccess — and neither starts a query nor touches the
+   network; otherwise a GET_VALUE lookup is started from the table's closest peers, with the local
+   record counted as one found record (and reported as a partial result) when there is one *)
+Theorem C16_get_record_local :
+  forall wc w q qr rk target,
+  SI wc (w_store w) -> 1 <= wc_ttl wc ->
+  let g := wc_g wc in
+  let hit := match V.C17.Model.find_rec rk (V.C17.Model.recs (w_store w)) with Some _ => true | None => false end in
+  let lookup := start_lookup g (w_st w) q LRec qr
+                  (lcfg g V.C15.Model.KRecord (needed_of g qr) (if hit then 1 else 0) (dists_of wc target))
+                  (seeds_of wc (w_rt w) target) in
+  fst (cstep wc w (UCmd q (UCGet qr rk) target)) =
+  match qr, hit with
+  | QOne, true => (w, [OPartial q (g_local g) LOCAL_REC; OGetRecSuccess q])
+  | _, _ => (mkW lookup (w_rt w) (w_store w), if hit then [OPartial q (g_local g) LOCAL_REC] else [])
+  end.
+Proof. exact get_record_step. Qed.
+Print Assumptions C16_get_record_local.
+
+(* its premise holds in every reachable world: every record of the store carries the configured ttl *)
+Theorem C16_store_records_live :
+  forall wc m L us, 1 <= wc_ttl wc -> SI wc (w_store (fst (crun wc (w0 wc m L) us))).
+Proof. exact reach_SI. Qed.
+Print Assumptions C16_store_records_live.
+
+(* a record this node stored (store_record, or the local half of put_record) is found by every later
+   GetRecord(Quorum::One), whatever happened in between, as long as the store's capacity is not exceeded *)
+Theorem C16_put_then_get :
+  forall wc m L us1 u us2 q rk target,
+  1 <= wc_ttl wc -> REC_LEN < V.C17.Model.max_size (wc_scfg wc) ->
+  N.of_nat (length (us1 ++ u :: us2)) <= V.C17.Model.max_records (wc_scfg wc) ->
+  (u = UStoreRecord rk \/ exists q0 qr0 t0, u = UCmd q0 (UCPut qr0 rk) t0) ->
+  let w := fst (crun wc (w0 wc m L) (us1 ++ u :: us2)) in
+  fst (cstep wc w (UCmd q (UCGet QOne rk) target)) =
+  (w, [OPartial q (g_local (wc_g wc)) LOCAL_REC; OGetRecSuccess q]).
+Proof. exact put_then_get. Qed.
+Print Assumptions C16_put_then_get.
+
+(* the theorems above, for composed histories from the empty world *)
+Theorem C16_compose_no_wait :
+  forall wc m us q x p,
+  1 <= g_alpha (wc_g wc) ->
+  let s := w_st (fst (crun wc (w0 wc m (length (lkey wc))) us)) in
+  aget q (eng s) = Some x -> In p (waiting x) -> owes s (negb (is_track x)) q p.
+Proof. exact c_no_wait. Qed.
+Print Assumptions C16_compose_no_wait.
+
+Theorem C16_compose_terminates :
+  forall wc m us q,
+  1 <= g_alpha (wc_g wc) -> ufresh [] us ->
+  let w := fst (crun wc (w0 wc m (length (lkey wc))) us) in
+  idle (w_st w) -> quiescent (w_st w) = true ->
+  terminals q (snd (crun wc (w0 wc m (length (lkey wc))) us)) = ustarted q us /\ (ustarted q us <= 1)%nat.
+Proof. exact c_terminates. Qed.
+Print Assumptions C16_compose_terminates.
+
+Theorem C16_compose_at_most_one :
+  forall wc m us k q p,
+  keys_ok wc -> ufresh [] us -> Forall (ucmd_ok (wc_g wc)) us ->
+  (cnt (w_st (fst (crun wc (w0 wc m (length (lkey wc))) us))) k q p <= 1)%nat.
+Proof. exact c_at_most_one. Qed.
+Print Assumptions C16_compose_at_most_one.
+
+Theorem C16_compose_quorum_honest :
+  forall wc m us q,
+  keys_ok wc -> ufresh [] us -> Forall (ucmd_ok (wc_g wc)) us ->
+  let outs := snd (crun wc (w0 wc m (length (lkey wc))) us) in
+  let es := elabs wc (w0 wc m (length (lkey wc))) us in
+  In (OPutSuccess q) outs \/ In (OProvSuccess q) outs ->
+  exists targets qr S,
+    find_quorum q es = Some qr /\ In (OTrack q targets) outs /\ NoDup S /\
+    clamp qr (N.of_nat (length targets)) <= N.of_nat (length S) /\
+    (forall p, In p S -> In (q, p) (put_sends (wc_g wc) (st0 m) es) /\ In p targets).
+Proof. exact c_quorum_honest. Qed.
+Print Assumptions C16_compose_quorum_honest.
 
 (* the shipped parallelism factor and executor timeouts satisfy what is assumed above *)
 Theorem C16_default_config :
@@ -112,15 +343,39 @@ Print Assumptions C16_default_config.
    peer the manager has no address for — the send phase starts, the peer is registered as failed at
    once and the operation reports QueryFailed *)
 Example C16_nonvacuous_undialable :
-  let g := mkG 20 3 99 in
+  let g := mkG 20 3 99 10 in
   snd (run g (st0 [(0, 0)]) [EPutToPeers 0 QOne [0]; EServe 0; EServe 0]) = [OTrack 0 [0]; OFailed 0].
 Proof. vm_compute. reflexivity. Qed.
 
 (* a FIND_NODE over one connected peer that answers: one terminal event, nothing left behind *)
 Example C16_nonvacuous_find :
-  let g := mkG 20 3 99 in
+  let g := mkG 20 3 99 10 in
   let es := [EEstablished 0 true; ECmd 0 CFindNode [0] [0]; EServe 0; EOpened 0 0;
              EFut 0 (RRead (MFindNode [])); EServe 0] in
   snd (run g (st0 [(0, 2)]) es) = [ORouting []; OFindNodeSuccess 0 [0]] /\
   eng (fst (run g (st0 [(0, 2)]) es)) = [] /\ futs (fst (run g (st0 [(0, 2)]) es)) = [].
 Proof. vm_compute. repeat split; reflexivity. Qed.
+
+(* peer timeout staleness inside the composition: parallelism factor 1, peer timeout 0, two seeds.  The
+   drain loop sends to peer 0 and stops (the slot is taken); once time has passed peer 0 is stale,
+   the next drain sends to peer 1 as well, and both remain waited for with exactly one obligation each *)
+Example C16_nonvacuous_stale :
+  let g := mkG 20 1 99 0 in
+  let s1 := fst (run g (st0 [(0, 2); (1, 2)])
+                   [EEstablished 0 true; EEstablished 1 true; ECmd 0 CFindNode [0; 1] [0; 1]; EServe 0; EServe 0]) in
+  let s2 := fst (run g s1 [ETick 1; EServe 0]) in
+  option_map waiting (aget 0 (eng s1)) = Some [0] /\ quiescent s1 = true /\
+  option_map waiting (aget 0 (eng s2)) = Some [0; 1] /\ quiescent s2 = true /\
+  cnt s2 true 0 0 = 1%nat /\ cnt s2 true 0 1 = 1%nat.
+Proof. vm_compute. repeat split; reflexivity. Qed.
+
+(* the composition is not vacuous: a world of three peers with 2-bit keys satisfies `keys_ok`; the peer
+   added to the table seeds the lookup, and a stored record is answered locally *)
+Example C16_nonvacuous_compose :
+  keys_ok ex_wc /\
+  snd (crun ex_wc (w0 ex_wc [(0, 2)] 2)
+         [UAddKnownPeer 0 true; UEv (EEstablished 0 true); UCmd 0 UCFind [true; true]; UEv (EServe 0);
+          UEv (EOpened 0 0); UEv (EFut 0 (RRead (MFindNode [1]))); UEv (EServe 0); UEv (EOpenFail 1); UEv (EServe 0);
+          UStoreRecord 7; UCmd 1 (UCGet QOne 7) [true; false]]) =
+  [ORouting [1]; OFindNodeSuccess 0 [0]; OPartial 1 99 LOCAL_REC; OGetRecSuccess 1].
+Proof. split; [exact ex_wc_ok | vm_compute; reflexivity]. Qed.
